@@ -65,8 +65,11 @@ class TEnv:
             me = w.current
 
             def gate():
-                return sum(1 for t in w.threads if t is not me and not t.done and t.blocked_on is not None and t.blocked_on[0] == "event") >= k \
-                    or all(t.done or t.blocked_on is not None for t in w.threads if t is not me)
+                if isinstance(k, float):        # a connect that takes k seconds to fail: reported once the clock has reached k
+                    ready = self.time >= k
+                else:                           # ... once k other threads are parked on an event (queued in the pool)
+                    ready = sum(1 for t in w.threads if t is not me and not t.done and t.blocked_on is not None and t.blocked_on[0] == "event") >= k
+                return ready or all(t.done or t.blocked_on is not None for t in w.threads if t is not me)
             while not gate():
                 w.block(("gate", gate))
         if op.kind == "read":
